@@ -253,6 +253,11 @@ func TestC08(t *testing.T) {
 			c.snaps[0].refs++
 			keep = map[int]int{0: 1}
 		}
+		c.finalCloseOnly = rapid.Bool().Draw(t, "finalcloseonly")
+		c.coarse = rapid.Bool().Draw(t, "coarse")
+		// the windows this property is about: Open between test and add, Close at retirement, GC around its try-lock
+		c.hot = sched.DrawHotPlans(t, []int{nitro.VerifPtOpenTested, nitro.VerifPtCloseRetire, nitro.VerifPtGCBeforeTryLock, nitro.VerifPtGCPassDone}, 4, 30)
+		f.logf("finalCloseOnly=%v coarse=%v hot=%s", c.finalCloseOnly, c.coarse, sched.FmtHot(c.hot))
 		events, initial, raced := runRefRoundKeep(t, c, f, keep)
 		// counter linearizability per snapshot
 		for j := range c.snaps {
